@@ -232,6 +232,23 @@ def workloadMode (root : String) (configs : List PA) (w : Workload) (port : Nat)
 
 /-! ## Client side -/
 
+/-- `AuthenticationPolicies.FilterPeerAuthenticationNamespaces`: the policies and namespace modes of
+    the given namespaces only (mesh mode and root namespace name are kept). -/
+def Authn.filterNs (a : Authn) (nss : List String) : Authn :=
+  { peerAuths := a.peerAuths.filter (fun c => nss.contains c.ns),
+    nsMode := a.nsMode.filter (fun e => nss.contains e.1),
+    globalMode := a.globalMode,
+    rootNs := a.rootNs }
+
+/-- `SidecarScope.selectAuthnPolicies`: what a client proxy in `clientNs` whose sidecar scope imports
+    services of the namespaces `importedNs` sees (`proxy.SidecarScope.AuthnPolicies`). -/
+def sidecarView (root : String) (configs : List PA) (clientNs : String) (importedNs : List String) : Authn :=
+  (initAuthn root configs).filterNs (clientNs :: root :: importedNs)
+
+/-- `NewMtlsPolicy(push, view, ns, labels, _).GetMutualTLSModeForPort(port)` on a given view. -/
+def Authn.modeFor (a : Authn) (w : Workload) (port : Nat) : MTLS :=
+  (compose a.rootNs (a.configsFor w)).modeForPort port
+
 /-- `BestEffortInferServiceMTLSMode` for an in-mesh, non-passthrough service in namespace `ns`. -/
 def bestEffortServiceMode (a : Authn) (ns : String) : MTLS :=
   match a.namespaceMode ns with
@@ -252,5 +269,13 @@ def checkMtlsEnabled (root : String) (configs : List PA) (dr : Option DRMode) (e
   | none =>
     if !epTLS then false
     else workloadMode root configs w port != .disable
+
+/-- `mtlsChecker.checkMtlsEnabled` as production calls it: on the client proxy's scoped view. -/
+def checkMtlsEnabledIn (a : Authn) (dr : Option DRMode) (epTLS : Bool) (w : Workload) (port : Nat) : Bool :=
+  match dr with
+  | some m => m == .istioMutual
+  | none =>
+    if !epTLS then false
+    else a.modeFor w port != .disable
 
 end IstioModel.C10
